@@ -153,6 +153,9 @@ pub struct World {
     /// Host names used in rpkiNotify URIs where they differ from the repository's rsync host.
     #[serde(default)]
     pub notify_host_override: std::collections::BTreeMap<usize, String>,
+    /// "module/dir" of a CA's publication point where it differs from "repo/ca<N>".
+    #[serde(default)]
+    pub ca_dir_override: std::collections::BTreeMap<usize, String>,
 }
 
 pub const YEAR: Ts = 365 * 86400;
@@ -188,7 +191,7 @@ impl World {
     pub fn host(&self, repo: usize) -> String { self.host_override.get(&repo).cloned().unwrap_or_else(|| format!("r{repo}.rpki.test")) }
     /// The CA whose publication point `ca` uses (itself unless it is an alias).
     pub fn point_of(&self, ca: usize) -> usize { self.cas[ca].alias_of.unwrap_or(ca) }
-    pub fn ca_repository(&self, ca: usize) -> String { let ca = self.point_of(ca); format!("rsync://{}/repo/ca{}/", self.host(self.cas[ca].repo), ca) }
+    pub fn ca_repository(&self, ca: usize) -> String { let ca = self.point_of(ca); match self.ca_dir_override.get(&ca) { Some(d) => format!("rsync://{}/{}/", self.host(self.cas[ca].repo), d), None => format!("rsync://{}/repo/ca{}/", self.host(self.cas[ca].repo), ca) } }
     pub fn manifest_uri(&self, ca: usize) -> String { let ca = self.point_of(ca); format!("{}ca{}.mft", self.ca_repository(ca), ca) }
     pub fn crl_uri(&self, ca: usize) -> String { let ca = self.point_of(ca); format!("{}ca{}.crl", self.ca_repository(ca), ca) }
     pub fn notify_host(&self, repo: usize) -> String { self.notify_host_override.get(&repo).cloned().unwrap_or_else(|| self.host(repo)) }
@@ -276,7 +279,7 @@ pub fn gen_object(rng: &mut Rng, now: Ts, ca: usize, blocks: &[usize], n: usize,
 }
 
 pub fn generate(rng: &mut Rng, now: Ts, p: &GenParams) -> World {
-    let mut w = World { now, tals: Vec::new(), cas: Vec::new(), host_override: Default::default(), notify_host_override: Default::default() };
+    let mut w = World { now, tals: Vec::new(), cas: Vec::new(), host_override: Default::default(), notify_host_override: Default::default(), ca_dir_override: Default::default() };
     let mut next_key = 0usize;
     for t in 0..p.tals {
         let root = w.cas.len();
@@ -404,7 +407,7 @@ pub fn add_cycle(w: &mut World, from: usize, to: usize) -> usize {
 
 /// A TAL with a single chain of `len` CAs below the TA, each with `objs` objects.
 pub fn gen_chain(rng: &mut Rng, now: Ts, len: usize, objs: usize) -> World {
-    let mut w = World { now, tals: vec![Tal { name: "chain".into(), root: 0, uris: vec![TaState::Good], ta_nb: now - YEAR, ta_na: now + 10 * YEAR }], cas: Vec::new(), host_override: Default::default(), notify_host_override: Default::default() };
+    let mut w = World { now, tals: vec![Tal { name: "chain".into(), root: 0, uris: vec![TaState::Good], ta_nb: now - YEAR, ta_na: now + 10 * YEAR }], cas: Vec::new(), host_override: Default::default(), notify_host_override: Default::default(), ca_dir_override: Default::default() };
     for id in 0..=len {
         let this = now - 3600; let next = now + 3 * DAY;
         w.cas.push(Ca { id, parent: if id == 0 { None } else { Some(id - 1) }, tal: 0, key: id % super::keys::CA_KEYS, repo: id % 2, rrdp: false, extra_blocks: Vec::new(),
